@@ -187,6 +187,8 @@ func (c *CLokiQuerier) Select(sortSeries bool, hints *storage.SelectHints,
 		fmt.Println(str)
 		return &model.SeriesSet{Error: err}
 	}
+	// a row that does not scan ends the loop early: the connection goes back to the pool here, not when the request ends
+	defer rows.Close()
 	var (
 		fp         uint64  = 0
 		val        float64 = 0
@@ -378,6 +380,7 @@ func (l *labelsGetter) Fetch() error {
 	if err != nil {
 		return err
 	}
+	defer rows.Close()
 	for rows.Next() {
 		var (
 			fingerprint uint64
